@@ -18,9 +18,13 @@ type Op struct {
 	N    int       `json:"n,omitempty"`
 	Lens []int     `json:"lens,omitempty"` // striped: per-channel slice length, -1 = nil
 	Vals []kit.Val `json:"vals,omitempty"` // value pool for writers: element k is Vals[k % len]
-	// Share (writeStriped): 0 = every input channel has storage of its own; 1 = the non-nil channels are
-	// prefixes of one caller array (same first element, own lengths: one signal fanned out); 2 = they are
-	// consecutive pieces of one flat caller array. A writer only reads its input, so sharing cannot matter.
+	// Share (striped forms): 0 = every per-channel slice has storage of its own; 1 (writeStriped only) = the
+	// non-nil channels are prefixes of one caller array (same first element, own lengths: one signal fanned
+	// out); 2 = they are consecutive pieces of one flat caller array (a planar block when the lengths are
+	// equal), each keeping the capacity up to the end of the block; 3 = the same with the places of channels
+	// 1 and 2 exchanged (four or more channels); 4 = the same, but channel 1 (three or more channels) has
+	// storage of its own and its place in the block stays unused. Where the caller keeps its slices is the
+	// caller's business: a writer only reads them, a reader fills exactly the slices it was given.
 	Share int `json:"share,omitempty"`
 }
 
@@ -120,7 +124,7 @@ func (c *Case) valid() bool {
 					return false
 				}
 			}
-			if op.Share < 0 || op.Share > 2 || (op.Share != 0 && op.Kind != "writeStriped") {
+			if op.Share < 0 || op.Share > 4 || (op.Share == 1 && op.Kind != "writeStriped") {
 				return false
 			}
 		default:
@@ -178,6 +182,7 @@ func run[S, B signal.SignalTypes](c *Case) (res kit.Result) {
 		s    []S
 		want []S
 	}
+	inOuter, outOuter := make([][]S, C), make([][]S, C)
 	var ledger []kept
 	remember := func(what string, s []S) {
 		if s != nil {
@@ -249,29 +254,33 @@ func run[S, B signal.SignalTypes](c *Case) (res kit.Result) {
 			}
 			remember(what+": output slice", out)
 		case "writeStriped":
-			in := make([][]S, C)
+			in := inOuter // one outer slice for all the calls of a case, as a block-wise producer keeps it
+			for ch := range in {
+				in[ch] = nil
+			}
 			keep := make([][]S, C)
-			longest, total := 0, 0
+			longest := 0
 			uneven := false
-			starts := make([]int, C) // Share 2: where channel ch starts in the flat array
-			for ch, l := range op.Lens {
-				starts[ch] = total
+			for _, l := range op.Lens {
 				if l > longest {
 					longest = l
 				}
-				if l > 0 {
-					total += l
-				}
 			}
+			starts, total := layout(op.Lens, op.Share)
 			// vi: which element of the value pool input sample i of channel ch holds
 			vi := func(ch, i int) int { return ch*7 + i }
 			var shared []S
-			switch op.Share {
-			case 1:
+			switch {
+			case op.Share == 1:
 				vi = func(ch, i int) int { return i }
 				shared = spare[S](longest, oi)
-			case 2:
-				vi = func(ch, i int) int { return starts[ch] + i }
+			case op.Share >= 2:
+				vi = func(ch, i int) int {
+					if starts[ch] < 0 {
+						return ch*7 + i
+					}
+					return starts[ch] + i
+				}
 				shared = spare[S](total, oi)
 			}
 			if op.Share != 0 && len(op.Vals) > 0 {
@@ -285,10 +294,10 @@ func run[S, B signal.SignalTypes](c *Case) (res kit.Result) {
 					uneven = true
 					continue
 				}
-				switch op.Share {
-				case 1:
+				switch {
+				case op.Share == 1:
 					in[ch] = shared[:l]
-				case 2:
+				case op.Share >= 2 && starts[ch] >= 0:
 					in[ch] = shared[starts[ch] : starts[ch]+l]
 				default:
 					in[ch] = spare[S](l, oi+ch)
@@ -348,24 +357,45 @@ func run[S, B signal.SignalTypes](c *Case) (res kit.Result) {
 				remember(fmt.Sprintf("%s: input channel %d", what, ch), in[ch])
 			}
 		case "readStriped":
-			out := make([][]S, C)
+			out := outOuter // one outer slice for all the calls of a case
+			for ch := range out {
+				out[ch] = nil
+			}
 			want := make([][]S, C)
 			wr := 0
 			uneven := false
+			// Share 2..4: the output slices are pieces of one caller block, compared as a whole afterwards
+			starts, total := layout(op.Lens, op.Share)
+			var block, wantBlock []S
+			if op.Share >= 2 {
+				block = spare[S](total, oi)
+				for k := range block {
+					block[k] = S(kit.OutSentinel(k * 3))
+				}
+				wantBlock = append([]S(nil), block[:cap(block)]...)
+				res.Class("stripedOutputChannelsShareABlock")
+			}
 			for ch, l := range op.Lens {
 				if l < 0 {
 					uneven = true
 					continue
 				}
-				out[ch] = spare[S](l, oi+ch)
-				want[ch] = append([]S(nil), out[ch][:cap(out[ch])]...)
-				for i := range out[ch] {
-					out[ch][i] = S(kit.OutSentinel(ch*5 + i))
-					want[ch][i] = out[ch][i]
-				}
 				nc := kit.Min(l, frames)
-				for i := 0; i < nc; i++ {
-					want[ch][i] = S(model[off+C*i+ch])
+				if op.Share >= 2 && starts[ch] >= 0 {
+					out[ch] = block[starts[ch] : starts[ch]+l]
+					for i := 0; i < nc; i++ {
+						wantBlock[starts[ch]+i] = S(model[off+C*i+ch])
+					}
+				} else {
+					out[ch] = spare[S](l, oi+ch)
+					want[ch] = append([]S(nil), out[ch][:cap(out[ch])]...)
+					for i := range out[ch] {
+						out[ch][i] = S(kit.OutSentinel(ch*5 + i))
+						want[ch][i] = out[ch][i]
+					}
+					for i := 0; i < nc; i++ {
+						want[ch][i] = S(model[off+C*i+ch])
+					}
 				}
 				if nc > wr {
 					wr = nc
@@ -398,10 +428,20 @@ func run[S, B signal.SignalTypes](c *Case) (res kit.Result) {
 					res.Failf("%s: the caller's output channel %d now has length %d, was %d", what, ch, len(out[ch]), op.Lens[ch])
 					return
 				}
+				if want[ch] == nil {
+					continue // a piece of the block, compared below
+				}
 				if d := kit.DiffSlice(fmt.Sprintf("output channel %d (including the elements behind its length)", ch), out[ch][:cap(out[ch])], want[ch]); d != "" {
 					res.Failf("%s: %s", what, d)
 					return
 				}
+			}
+			if block != nil {
+				if d := kit.DiffSlice(fmt.Sprintf("the caller's block holding the output channels at %v (lengths %v; -1: not in the block), including what lies between and behind them", starts, op.Lens), block[:cap(block)], wantBlock); d != "" {
+					res.Failf("%s: %s", what, d)
+					return
+				}
+				remember(what+": block of the output channels", block)
 			}
 			if uneven {
 				res.Class("stripedUneven")
@@ -410,7 +450,9 @@ func run[S, B signal.SignalTypes](c *Case) (res kit.Result) {
 				res.Class("roundTrip")
 			}
 			for ch := range out {
-				remember(fmt.Sprintf("%s: output channel %d", what, ch), out[ch])
+				if want[ch] != nil {
+					remember(fmt.Sprintf("%s: output channel %d", what, ch), out[ch])
+				}
 			}
 		}
 		for _, k := range ledger[:earlier] {
@@ -443,6 +485,31 @@ func run[S, B signal.SignalTypes](c *Case) (res kit.Result) {
 				res.Failf("BufferIndex(%d,%d) = %d, want %d", ch, i, got, C*i+ch)
 				return
 			}
+		}
+	}
+	return
+}
+
+// layout places the per-channel slices of a striped call in one caller block (Share 2..4): starts[ch] is
+// where channel ch begins, -1 for a channel that has storage of its own (or is nil); total is the length
+// of the block.
+func layout(lens []int, share int) (starts []int, total int) {
+	C := len(lens)
+	order := make([]int, C)
+	for i := range order {
+		order[i] = i
+	}
+	if share == 3 && C >= 4 {
+		order[1], order[2] = 2, 1
+	}
+	starts = make([]int, C)
+	for _, ch := range order {
+		starts[ch] = -1
+		if l := lens[ch]; l >= 0 {
+			if !(share == 4 && C >= 3 && ch == 1) {
+				starts[ch] = total
+			}
+			total += l // the place of an evicted channel stays unused
 		}
 	}
 	return
@@ -531,9 +598,16 @@ func Gen(t *rapid.T) *Case {
 					op.Lens[ch] = kit.GenLenRel(t, "len", frames)
 				}
 			}
-			if op.Kind == "writeStriped" {
-				if sh := rapid.IntRange(0, 5).Draw(t, "share"); sh <= 2 {
-					op.Share = sh
+			if sh := rapid.IntRange(0, 8).Draw(t, "share"); sh <= 4 && (sh != 1 || op.Kind == "writeStriped") {
+				op.Share = sh
+				if sh >= 2 && rapid.Bool().Draw(t, "planar") { // a planar block: equal lengths, or all but the last equal
+					n := kit.GenLenRel(t, "planarLen", frames)
+					for ch := range op.Lens {
+						op.Lens[ch] = n
+					}
+					if rapid.Bool().Draw(t, "lastDiffers") {
+						op.Lens[c.C-1] = kit.GenLenRel(t, "planarLast", frames)
+					}
 				}
 			}
 		}
